@@ -177,6 +177,43 @@ func c10Case(r *fw.Rand, index string) fw.Case {
 	return fw.Case{Ops: ops, Tags: []string{"delete", index}}
 }
 
+// c10OrderedCase: files whose blocks of a series do not overlap in time (each file holds its
+// own window), a partial delete that touches only a later file, then a compaction — the
+// blocks the delete did not touch may be copied without decoding, the tombstoned one may not.
+func c10OrderedCase(r *fw.Rand, index string) fw.Case {
+	ops := []string{"reset " + index}
+	live := map[string]bool{}
+	nf := 2 + r.Intn(3)
+	series := [][2]string{}
+	for i, n := 0, 1+r.Intn(3); i < n; i++ {
+		series = append(series, [2]string{c10Meas[r.Intn(len(c10Meas))], c10Tags[r.Intn(len(c10Tags))]})
+	}
+	for k := 0; k < nf; k++ {
+		var pts []string
+		for _, sr := range series {
+			live[sr[0]+"|"+sr[1]] = true
+			for j, n := 0, 2+r.Intn(5); j < n; j++ {
+				pts = append(pts, fmt.Sprintf("%s|%s|%d|n=%s", sr[0], sr[1], c10Base+int64(k*10+r.Intn(10))*1000, genVal(r, fieldTypes["n"])))
+			}
+		}
+		ops = append(ops, "w "+strings.Join(pts, ";"), "snap")
+	}
+	for d, nd := 0, 1+r.Intn(2); d < nd; d++ {
+		k := 1 + r.Intn(nf-1) // not the oldest file
+		lo := c10Base + int64(k*10+r.Intn(5))*1000
+		hi := lo + int64(r.Intn(5))*1000
+		ops = append(ops, fmt.Sprintf("del %s - %d %d", series[r.Intn(len(series))][0], lo, hi))
+	}
+	if r.Intn(3) == 0 {
+		ops = append(ops, "reopen")
+	}
+	ops = append(ops, fmt.Sprintf("compact %s 0 %d", []string{"fast", "full"}[r.Intn(2)], nf-1))
+	ops = c10Observe(r, ops, live, true)
+	ops = append(ops, "reopen")
+	ops = c10Observe(r, ops, live, true)
+	return fw.Case{Ops: ops, Tags: []string{"ordered-files", index}}
+}
+
 func (C10) Generate(r *fw.Rand, tier string) []fw.Case {
 	n := 60
 	if tier == "thorough" {
@@ -189,6 +226,9 @@ func (C10) Generate(r *fw.Rand, tier string) []fw.Case {
 			idx = "tsi1"
 		}
 		cases = append(cases, c10Case(r.Fork(), idx))
+		if i%5 == 0 {
+			cases = append(cases, c10OrderedCase(r.Fork(), idx))
+		}
 	}
 	return cases
 }
